@@ -605,3 +605,58 @@ func verifC09Rank(rx, ry, rz int) {}
 //@   ensures len(ks) == len(r.Values) && (ks == nil || fresh(ks))
 //@   ensures forall i int :: 0 <= i < len(ks) ==> ks[i].k != nil && ks[i].k.proj == p
 //@   ensures len(r.Values) == old(len(r.Values)) && r.Values === old(r.Values)
+
+// ---------------------------------------------------------------------------
+// Growing the field index space (C08): a new field gets the next free index,
+// the row buffer grows by one empty value, and nothing already recorded moves.
+
+//@ func (p *Projection) addField(group *Field, name string) (f *Field)
+//@   props C08
+//@   nooverflow
+//@   opt allocates
+//@   requires p != nil && group != nil && group.idx == -1
+//@   modifies p, group, group.Sub, p.row
+//@   ensures f != nil && fresh(f) && f.Name == name && f.proj == p && f.idx == old(p.nFields) && !f.IsTuple
+//@   ensures p.nFields == old(p.nFields) + 1 && len(p.row) == old(len(p.row)) + 1 && p.row[len(p.row)-1] == ""
+//@   ensures forall i int :: 0 <= i < old(len(p.row)) ==> p.row[i] == old(p.row[i])
+//@   ensures len(group.Sub) == old(len(group.Sub)) + 1 && group.Sub[len(group.Sub)-1] == f
+//@   ensures forall i int :: 0 <= i < old(len(group.Sub)) ==> group.Sub[i] == old(group.Sub[i])
+//@   ensures p.keys == old(p.keys) && p.interns == old(p.interns) && p.root == old(p.root)
+
+//@ func (p *Projection) addGroup(group *Field, name string) (f *Field)
+//@   props C08
+//@   opt allocates
+//@   requires p != nil && group != nil
+//@   modifies group, group.Sub
+//@   ensures f != nil && fresh(f) && f.Name == name && f.proj == p && f.idx == -1 && f.IsTuple
+//@   ensures len(group.Sub) == old(len(group.Sub)) + 1 && group.Sub[len(group.Sub)-1] == f
+//@   ensures forall i int :: 0 <= i < old(len(group.Sub)) ==> group.Sub[i] == old(group.Sub[i])
+
+// Interning keeps the table an identity map and returns the bytes as a string.
+//@ pure func projInternsOK(p *Projection) bool = p.interns != nil && forall k string :: has(p.interns, k) ==> p.interns[k] == k
+
+//@ func (p *Projection) intern(b []byte) (s string)
+//@   props C08
+//@   requires p != nil && projInternsOK(p)
+//@   modifies p.interns
+//@   ensures s == string(b) && projInternsOK(p)
+
+//@ func (k Key) IsZero() (z bool)
+//@   props C08
+//@   ensures z <==> k.k == nil
+
+//@ func (k Key) Projection() (p *Projection)
+//@   props C08
+//@   ensures k.k == nil ==> p == nil
+//@   ensures k.k != nil ==> p == k.k.proj
+
+// Rendering a key never indexes outside its value vector: a field added after
+// the key was made simply reads as missing.
+//@ func (k Key) string(keys bool) (s string)
+//@   props C08
+//@   opt allocates
+//@   requires k.k != nil ==> k.k.proj != nil
+//@   modifies k.k.proj
+//@   loop 1:
+//@     invariant 0 <= idx() <= rlen()
+//@     decreases rlen() - idx()
